@@ -25,6 +25,7 @@ verif_mod!(h_arith, "h_arith.rs");
 verif_mod!(h_element, "h_element.rs");
 verif_mod!(h_reified, "h_reified.rs");
 verif_mod!(h_wrapper, "h_wrapper.rs");
+verif_mod!(h_reified_ne, "h_reified_ne.rs");
 verif_mod!(h_e2, "h_e2.rs");
 verif_mod!(h_branching, "h_branching.rs");
 verif_mod!(h_kernels, "h_kernels.rs");
